@@ -205,9 +205,16 @@ class Gen:
                      ("two", "cif::DimArr %s({0, 1});" % a, "%s.p(), %s.n()" % (a, a), "%s.vs()" % a, ""),
                      ("dim7", "cif::DimArr %s({0, 7});" % a, "%s.p(), %s.n()" % (a, a), "%s.vs()" % a, "")]
             elif ty == "MAPARR":
-                V = [("ok", "cif::DimArr %s({1, 0});" % a, "%s.p(), %s.n()" % (a, a), "cif::PFunc(%s.v)" % a, ""),
-                     ("drop", "ppl_dimension_type nd_%s; ppl_not_a_dimension(&nd_%s); cif::DimArr %s({nd_%s, 0});" % (a, a, a, a), "%s.p(), %s.n()" % (a, a), "cif::PFunc(%s.v)" % a, ""),
-                     ("notinj", "cif::DimArr %s({0, 0});" % a, "%s.p(), %s.n()" % (a, a), "cif::PFunc(%s.v)" % a, "")]
+                def mv(tag, items):
+                    nd = "ppl_dimension_type nd_%s; ppl_not_a_dimension(&nd_%s); " % (a, a)
+                    return (tag, nd + "cif::DimArr %s({%s});" % (a, ", ".join(("nd_%s" % a) if x is None else str(x) for x in items)),
+                            "%s.p(), %s.n()" % (a, a), "cif::PFunc(%s.v)" % a, "")
+                # defined positions: all, last only, FIRST only, none, not injective; on the 3-dimensional recipe (tags d3-):
+                # middle only, first only, last only, a rotation, two of three, longer than the space dimension
+                V = [mv("ok", [1, 0]), mv("drop", [None, 0]), mv("first-only", [0, None]), mv("none", [None, None]), mv("notinj", [0, 0]),
+                     mv("swap-first-only-1", [1, None]),
+                     mv("d3-middle-only", [None, 0, None]), mv("d3-first-only", [0, None, None]), mv("d3-last-only", [None, None, 0]),
+                     mv("d3-rotate", [2, 0, 1]), mv("d3-two", [1, None, 0]), mv("d3-too-long", [0, 1, 2, 3])]
             elif ty == "TOKENS":
                 V = [("ok", "unsigned tk_c = 2, tk_m = 2;", "&tk_c", "&tk_m", ""),
                      ("tok0", "unsigned tk_c = 0, tk_m = 0;", "&tk_c", "&tk_m", "")]
@@ -226,9 +233,24 @@ class Gen:
             for j in range(1, len(V)):
                 t = [0] * len(variants_per_arg); t[k] = j
                 tuples.append(tuple(t))
-        recipes = self.recipes
+        # entries with a complexity switch AND a set of variables: every complexity x every subset
+        ki = [k for k, (ty, nm) in enumerate(kinds) if ty == "DIMARR"]
+        kc = [k for k, (ty, nm) in enumerate(kinds) if ty == "int" and nm == "complexity"]
+        if ki and kc:
+            if "non_integer" in suffix:
+                variants_per_arg[ki[0]] += [("second", "cif::DimArr a%d({1});" % ki[0], "a%d.p(), a%d.n()" % (ki[0], ki[0]), "a%d.vs()" % ki[0], ""),
+                                            ("nonevars", "cif::DimArr a%d({});" % ki[0], "a%d.p(), a%d.n()" % (ki[0], ki[0]), "a%d.vs()" % ki[0], "")]
+            for vi in range(len(variants_per_arg[ki[0]])):
+                for vj in range(len(variants_per_arg[kc[0]])):
+                    t = [0] * len(variants_per_arg); t[ki[0]] = vi; t[kc[0]] = vj
+                    if tuple(t) not in tuples:
+                        tuples.append(tuple(t))
+        recipes = list(self.recipes)
+        if "non_integer" in suffix:
+            recipes = [49] + recipes          # 49: bounds at half-integers in every variable, so that the points dropped depend on the variables given
         for ti, tup in enumerate(tuples):
-            for r in (recipes if ti == 0 else recipes[:1]):
+            tag0 = "+".join(variants_per_arg[k][j][0] for k, j in enumerate(tup))
+            for r in (recipes if ti == 0 else ([5] if "d3-" in tag0 else recipes[:1])):
                 tag = "+".join(variants_per_arg[k][j][0] for k, j in enumerate(tup)) or "noargs"
                 decls = [variants_per_arg[k][j][1] for k, j in enumerate(tup)]
                 cargs = [variants_per_arg[k][j][2] for k, j in enumerate(tup)]
